@@ -9,7 +9,7 @@ def sh(cmd, cwd, timeout=900):
 def main():
     for sid in sys.argv[1:]:
         prop = sid[:3]
-        src = "/tmp/seedout/%s/%s" % (prop, sid)
+        src = "%s/%s/%s" % (os.environ.get("SEEDOUT", "/tmp/seedout"), prop, sid)
         meta = json.load(open(src + "/meta.json"))
         m = re.search(r"-run[ =]+('([^']*)'|\"([^\"]*)\"|(\S+))", meta.get("demo_cmd", ""))
         pat = (m.group(2) or m.group(3) or m.group(4)) if m else "Test"
